@@ -62,7 +62,15 @@ func (node *Node) resolveInputs(fork ForkId, keepSplit bool) ([]string, Marshale
 	result := make(MarshalerMap, len(node.call.ResolvedInputs()))
 	var errs syntax.ErrorList
 	var mapped []string
-	for k, v := range node.call.ResolvedInputs() {
+	inputs := node.call.ResolvedInputs()
+	// In sorted order, so that errors are reported reproducibly.
+	keys := make([]string, 0, len(inputs))
+	for k := range inputs {
+		keys = append(keys, k)
+	}
+	sort.Strings(keys)
+	for _, k := range keys {
+		v := inputs[k]
 		_, r, err := node.top.resolve(v.Exp, v.Type, fork, readSize)
 		if err != nil {
 			if keepSplit {
